@@ -242,7 +242,7 @@ class _Nest:
                 idx = self.emit(ind, "def m%d: %s := %s" % (self.n, t, v))
             else:
                 idx = self.emit(ind, "def m%d: Int := A(1).ma(%s)" % (self.n, v))
-            self.uses.append((idx, t, v, vt, form))
+            self.uses.append((idx, t, v, vt, form, dict(scope)))
         elif k in ("if_else", "if"):
             self.emit(ind, "if vi > %d then" % self.i(0, 5))
             self.block(ind + 1, scope, depth + 1)
@@ -285,10 +285,16 @@ class _Nest:
         self.uses = [(u[0] + off,) + tuple(u[1:]) for u in self.uses]
         planted = None
         if self.fault and self.uses:
-            idx, t, v, vt, form = self.pick(self.uses)
+            idx, t, v, vt, form, scope = self.pick(self.uses)
             wrong = self.pick(sites.DEFINITE_MISMATCH[t])
             bad = self.pick(NEST_LIT[wrong]) if wrong in NEST_LIT else '"zz"'
-            # the wrong value stands where the variable stood (a literal: the fault is local to this use)
+            # the wrong value stands where the variable stood: a literal (the fault is local to this use) or another visible
+            # variable whose declared type does not conform (the fault needs what was declared levels above)
+            others = sorted(n for n, nt in scope.items() if nt in sites.DEFINITE_MISMATCH[t] and n != v)
+            if others and self.i(0, 2) > 0:
+                bad = self.pick(others)
+                wrong = scope[bad]
+                form = form + "_wrong_variable"
             line = body[idx]
             body[idx] = line[::-1].replace(v[::-1], bad[::-1], 1)[::-1]
             planted = {"line": idx + 1 + NEST_WORLD.count("\n"), "required": t, "given": wrong, "form": form, "where": where,
